@@ -141,6 +141,16 @@ def run(p: Program, rep: Report, tier: str) -> None:
     else:
         rep.violation("R17.1", construct(mmm.methods["__setitem__"], text=f"pair placement {sorted(kinds)}"), where(mmm.methods["__setitem__"]),
                       "__setitem__ does not both replace the pair of an existing key in place and append the pair of a new key")
+    # deletions by position inside a loop over positions must run from the back
+    from ..common import stale_index_deletes
+    for name, m in sorted(mmm.methods.items()):
+        for node, desc, okk in stale_index_deletes(m):
+            if okk:
+                rep.ok("R17.1", f"{name}: {desc}")
+            else:
+                rep.violation("R17.1", construct(m, text="delete by stale position"), where(m, node),
+                              f"{name}: {desc}: after the first deletion the remaining positions are off by one, so with three or more pairs of the key a pair of ANOTHER key is removed (or IndexError is raised) "
+                              "and the item list no longer matches a plain list of pairs")
     for name in expect_methods:
         if name not in mmm.methods:
             rep.violation("R17.1", construct(mmm, text=f"{name} missing"), mmm.loc, f"MutableMultiMapping.{name} vanished")
